@@ -5,6 +5,7 @@ import ShexerModel.Model.Targets
 import ShexerModel.Model.Text
 import ShexerModel.Model.MinIri
 import ShexerModel.Model.MergeE
+import ShexerModel.Model.Nt
 import ShexerModel.Spec.Counts
 import ShexerModel.Spec.ShExSem
 open Shexer
@@ -40,6 +41,8 @@ structure DState where
   smItems : Array (String × String × Option (List String)) := #[]
   /-- the user's namespaces dictionary (namespace, prefix) in dictionary order -/
   nsDict : Array (String × String) := #[]
+  /-- raw lines for the reader models (`NT` lines; a tab inside is written `\\t`) -/
+  rawLines : Array String := #[]
 
 def parseBool (s : String) : Bool := s == "1" || s == "true" || s == "True"
 
@@ -131,6 +134,16 @@ def runCase (st : DState) (what id : String) : List String :=
             "S\t" ++ (Text.tuneToken ns s.prop).render ++ "\t" ++
               "|".intercalate (s.types.map fun ty =>
                 if s.prop == st.cfg.instProp then "[" ++ (Text.tuneToken ns ty).render ++ "]" else (Text.tuneToken ns ty).render)
+    | "ntlines" =>
+      st.rawLines.toList.map fun l =>
+        let term : Term → String
+          | .iri v => "IRI\t" ++ v
+          | .bnode v => "BNode\t" ++ v
+          | .lit dt => "Literal\t" ++ dt
+        match Nt.parseLine l.toList with
+        | .ok (some t) => "OK\t" ++ term t.s ++ "\t" ++ t.p ++ "\t" ++ term t.o
+        | .ok none => "DROPPED"
+        | .error _ => "EXC"
     | "merge" =>
       -- unit level: `MergeableConstraints.merge_group` on the statements of the last shape, failure modes included
       match st.shapes.back? with
@@ -269,6 +282,7 @@ def stepLine (st : DState) (line : String) : DState × List String :=
     (match st.shapes.back? with
      | some sh => ({ st with shapes := st.shapes.pop.push { sh with stmts := sh.stmts ++ [stm] } }, [])
      | none => (st, ["bad-op\tSN before SH"]))
+  | "NT" :: rest => ({ st with rawLines := st.rawLines.push (("\t".intercalate rest).replace "\\t" "\t") }, [])
   | ["SEL", n, ls] => ({ st with selLines := st.selLines.push (n, splitList ls) }, [])
   | ["Q", c, inv, p, ty, card] =>
     ({ st with queries := st.queries.push { cls := c, inv := inv == "I", prop := p, ty := ty, card := parseCard card } }, [])
